@@ -261,6 +261,10 @@ func balABISweep(t *testing.T, prop string) {
 					x /= len(pools[i])
 				}
 				for si, signers := range signerSets {
+					if si == 3 && nullAddr(md, args) {
+						// Alphabet-only methods get well-formed addresses (the Inner Ring derives them from validated events)
+						continue
+					}
 					if si == 3 && md.Name == "lock" {
 						// the property's domain: the Alphabet locks onto fresh addresses only (the stateful group does that)
 						continue
@@ -300,4 +304,14 @@ func balABISweep(t *testing.T, prop string) {
 		}
 	}
 	col.SetExhaustive(true)
+}
+
+// nullAddr: one of the Hash160 arguments is the Null item.
+func nullAddr(md manifest.Method, args []any) bool {
+	for i, p := range md.Parameters {
+		if p.Type.String() == "Hash160" && args[i] == nil {
+			return true
+		}
+	}
+	return false
 }
